@@ -43,7 +43,7 @@ Proof. intros H. unfold ctx_item. auto with exdb. Qed.
 Lemma table_toks_ex v og c t : ctx_ok v og c -> ex v (table_toks c og t).
 Proof.
   intros Hc. unfold table_toks. pose proof Hc as (Hq & Hs & Ha & Hk & Hadm).
-  apply ex_falias; [intros a; cbn [exact_q snd]; rewrite Ha, Hq; reflexivity|exact Hk|exact Hadm|exact I|].
+  apply ex_falias; [intros a; cbn [exact_q snd]; rewrite Ha, Hq; reflexivity|exact Hk|exact Hadm|].
   assert (Hb : ex v [(false, AId RIdent (q c) (tname t) og)]) by (apply ex_ident; [exact Hc|apply ex_nil]).
   destruct (tschema t) as [|s0 ch]; [exact Hb|].
   apply ex_app; [|apply ex_T; exact Hb]. apply ex_tjoin. apply Forall_map. apply Forall_forall. intros x _.
@@ -51,12 +51,25 @@ Proof.
 Qed.
 #[export] Hint Resolve table_toks_ex : exdb.
 
+(* the sub-query alias quote travels in the kwargs context next to the other conventions *)
+Definition k_ok (v : conv) (og : origin) (k : kctx) : Prop := k_qaq k = og_qa v og /\ (k_abs k = true -> v_abs v = true).
+Lemma k_ok_with_c v og k c : k_ok v og k -> k_ok v og (with_c k c).
+Proof. exact (fun H => H). Qed.
+Lemma k_ok_fk v og k : k_ok v og k -> k_ok v og (fk k).
+Proof. exact (fun H => H). Qed.
+Lemma k_ok_defaults v og0 c kin : k_ok v og0 kin -> k_ok v (origin_after c kin og0) (defaults c kin).
+Proof.
+  unfold k_ok, defaults, origin_after. intros [H H2]. destruct (k_abs kin); cbn [k_qaq k_abs mk_k og_qa]; (split; [|discriminate]);
+    [reflexivity|exact H].
+Qed.
+#[export] Hint Resolve k_ok_with_c k_ok_fk k_ok_defaults : exdb.
+
 (* the origin bookkeeping of _set_kwargs_defaults *)
 Lemma defaults_ok v og0 c kin :
-  v_adm v c = true -> ctx_ok v og0 (kc kin) -> ctx_ok v (origin_after c kin og0) (kc (defaults c kin)).
+  k_ok v og0 kin -> ctx_ok v og0 (kc kin) -> ctx_ok v (origin_after c kin og0) (kc (defaults c kin)).
 Proof.
-  intros Hc (Hq & Hs & Ha & Hk & Hadm). unfold defaults, origin_after. destruct (k_abs kin); cbn [kc mk_k].
-  - repeat split; cbn; try reflexivity; assumption.
+  intros [_ Hc] (Hq & Hs & Ha & Hk & Hadm). unfold defaults, origin_after. destruct (k_abs kin); cbn [kc mk_k].
+  - repeat split; cbn; try reflexivity; try assumption. apply Hc. reflexivity.
   - repeat split; assumption.
 Qed.
 
@@ -66,54 +79,53 @@ Variable rho : cls -> cls.
 Variable it : kctx -> origin -> list tref -> ctx -> item -> res (list dtok).
 Variable qt : kctx -> origin -> bool -> bool -> bool -> option string -> query -> res (list dtok).
 Variable v : conv.
-Hypothesis Hadm : forall c0, v_adm v (rho c0) = true.
-Hypothesis Hit : forall k og srcs c i ts, ctx_ok v og c -> it k og srcs c i = Ok ts -> ex v ts.
-Hypothesis Hqt : forall kin og0 wal sub pv ali x ts, ctx_ok v og0 (kc kin) -> qt kin og0 wal sub pv ali x = Ok ts -> ex v ts.
+Hypothesis Hit : forall k og srcs c i ts, k_ok v og k -> ctx_ok v og c -> it k og srcs c i = Ok ts -> ex v ts.
+Hypothesis Hqt : forall kin og0 wal sub pv ali x ts, k_ok v og0 kin -> ctx_ok v og0 (kc kin) -> qt kin og0 wal sub pv ali x = Ok ts -> ex v ts.
 
 Ltac tt E := let X := fresh "X" in
   match type of E with
   | ttoks _ _ _ = Ok ?a => assert (X : ex v a) by (eapply ttoks_exact; [|exact E]; eauto with exdb); clear E
-  | qt _ _ _ _ _ _ _ = Ok ?a => assert (X : ex v a) by (eapply Hqt; [|exact E]; cbn [kc with_c mk_k]; eauto with exdb); clear E
-  | it _ _ _ _ _ = Ok ?a => assert (X : ex v a) by (eapply Hit; [|exact E]; eauto with exdb); clear E
+  | qt _ _ _ _ _ _ _ = Ok ?a => assert (X : ex v a) by (eapply Hqt; [| |exact E]; cbn [kc with_c mk_k]; eauto with exdb); clear E
+  | it _ _ _ _ _ = Ok ?a => assert (X : ex v a) by (eapply Hit; [| |exact E]; eauto with exdb); clear E
   end.
 Ltac tts := repeat match goal with E : _ = Ok _ |- _ => tt E end.
 
-Lemma item_toks_ex k og srcs c i ts : ctx_ok v og c -> item_toks it qt k og srcs c i = Ok ts -> ex v ts.
+Lemma item_toks_ex k og srcs c i ts : k_ok v og k -> ctx_ok v og c -> item_toks it qt k og srcs c i = Ok ts -> ex v ts.
 Proof.
-  intros Hc H. destruct i; cbn [item_toks] in H.
+  intros Hk0 Hc H. destruct i; cbn [item_toks] in H.
   - eapply ttoks_exact; eassumption.
-  - eapply Hqt; [|exact H]. exact Hc.
+  - eapply Hqt; [| |exact H]; [exact Hk0|exact Hc].
   - inv_ok H. tts. auto with exdb.
   - inv_ok H. tts. auto with exdb.
   - inv_ok H. tts. auto with exdb.
   - inv_ok H.
     match goal with E : rmapM _ _ = Ok ?a |- _ =>
-      assert (X : Forall (ex v) a) by (eapply rmapM_ok; [|exact E]; intros x b Hx; eapply Hit; [|exact Hx];
+      assert (X : Forall (ex v) a) by (eapply rmapM_ok; [|exact E]; intros x b Hx; eapply Hit; [| |exact Hx];
                                        cbn [kc fk with_c mk_k]; eauto with exdb) end.
     destruct (wa c); auto 10 with exdb.
   - inv_ok H. tts. auto 8 with exdb.
   - inv_ok H. tts. auto with exdb.
 Qed.
 
-Lemma src_toks_ex k og cx sn ts : ctx_ok v og cx -> src_toks qt k og cx sn = Ok ts -> ex v ts.
+Lemma src_toks_ex k og cx sn ts : k_ok v og k -> ctx_ok v og cx -> src_toks qt k og cx sn = Ok ts -> ex v ts.
 Proof.
-  intros Hc H. unfold src_toks in H. destruct (fst sn).
+  intros Hk0 Hc H. unfold src_toks in H. destruct (fst sn).
   - inv_ok H. auto with exdb.
   - tt H. assumption.
   - inv_ok H. apply ex_cte; [exact (proj2 (proj2 (proj2 (proj2 Hc))))|apply ex_nil].
 Qed.
-Lemma from_toks_ex k og cx sn ts : ctx_ok v og cx -> from_toks qt k og cx sn = Ok ts -> ex v ts.
+Lemma from_toks_ex k og cx sn ts : k_ok v og k -> ctx_ok v og cx -> from_toks qt k og cx sn = Ok ts -> ex v ts.
 Proof.
-  intros Hc H. unfold from_toks in H. destruct (fst sn) eqn:E.
+  intros Hk0 Hc H. unfold from_toks in H. destruct (fst sn) eqn:E.
   - inv_ok H. auto with exdb.
-  - eapply src_toks_ex; eassumption.
-  - eapply src_toks_ex; eassumption.
+  - eapply src_toks_ex; [exact Hk0|exact Hc|exact H].
+  - eapply src_toks_ex; [exact Hk0|exact Hc|exact H].
 Qed.
 Lemma join_toks_ex k kk og srcs cs co jn ts :
-  ctx_ok v og cs -> ctx_ok v og co -> join_toks it qt k kk og srcs cs co jn = Ok ts -> ex v ts.
+  k_ok v og k -> k_ok v og kk -> ctx_ok v og cs -> ctx_ok v og co -> join_toks it qt k kk og srcs cs co jn = Ok ts -> ex v ts.
 Proof.
-  intros Hs Ho H. unfold join_toks in H. inv_bind H.
-  match goal with E : src_toks _ _ _ _ _ = Ok ?a |- _ => assert (ex v a) by (eapply src_toks_ex; [|exact E]; assumption); clear E end.
+  intros Hk0 Hkk Hs Ho H. unfold join_toks in H. inv_bind H.
+  match goal with E : src_toks _ _ _ _ _ = Ok ?a |- _ => assert (ex v a) by (eapply src_toks_ex; [| |exact E]; assumption); clear E end.
   destruct (snd (fst jn)) as [i|fs|].
   - inv_ok H. match goal with E : bind _ _ = Ok _ |- _ => inv_ok E end. tts. auto 8 with exdb.
   - inv_ok H. match goal with E : Ok _ = Ok _ |- _ => inversion E; subst; clear E end.
@@ -121,14 +133,14 @@ Proof.
     apply ex_tjoin. apply Forall_map. apply Forall_forall. intros x _. auto with exdb.
   - inv_ok H. match goal with E : Ok _ = Ok _ |- _ => inversion E; subst; clear E end. auto with exdb.
 Qed.
-Lemma where_toks_ex kw kk og srcs cx w ts : ctx_ok v og cx -> where_toks it kw kk og srcs cx w = Ok ts -> ex v ts.
+Lemma where_toks_ex kw kk og srcs cx w ts : k_ok v og kk -> ctx_ok v og cx -> where_toks it kw kk og srcs cx w = Ok ts -> ex v ts.
 Proof.
-  intros Hc H. unfold where_toks, opt_toks in H. destruct w as [i|]; [|inversion H; apply ex_nil].
+  intros Hkk Hc H. unfold where_toks, opt_toks in H. destruct w as [i|]; [|inversion H; apply ex_nil].
   inv_ok H. tts. auto with exdb.
 Qed.
-Lemma with_toks_ex kk og withs ts : ctx_ok v og (kc kk) -> with_toks qt kk og withs = Ok ts -> ex v ts.
+Lemma with_toks_ex kk og withs ts : k_ok v og kk -> ctx_ok v og (kc kk) -> with_toks qt kk og withs = Ok ts -> ex v ts.
 Proof.
-  intros Hc H. unfold with_toks in H. destruct withs as [|w0 wr]; [inversion H; apply ex_nil|].
+  intros Hkk Hc H. unfold with_toks in H. destruct withs as [|w0 wr]; [inversion H; apply ex_nil|].
   inv_ok H. apply ex_T, ex_tjoin. eapply rmapM_ok; [|eassumption].
   intros x b Hx. cbn beta in Hx. inv_ok Hx. tts.
   apply ex_cte; [exact (proj2 (proj2 (proj2 (proj2 Hc))))|]. auto 8 with exdb.
@@ -139,23 +151,23 @@ Proof.
   cbn [exact_q snd]. rewrite Ha, Hq. reflexivity.
 Qed.
 Lemma gitem_toks_ex kk og srcs cx base gba selects y ts :
-  ctx_ok v og cx -> ctx_ok v og base -> gitem_toks it kk og srcs cx base gba selects y = Ok ts -> ex v ts.
+  k_ok v og kk -> ctx_ok v og cx -> ctx_ok v og base -> gitem_toks it kk og srcs cx base gba selects y = Ok ts -> ex v ts.
 Proof.
-  intros Hc Hb H. unfold gitem_toks in H. inv_ok H. apply ex_mark_group.
+  intros Hkk Hc Hb H. unfold gitem_toks in H. inv_ok H. apply ex_mark_group.
   destruct (if gba then alias_ref selects y else None).
   - match goal with E : Ok _ = Ok _ |- _ => inversion E; subst; clear E end. apply alias_ref_tok_ex; assumption.
   - tts. assumption.
 Qed.
 Lemma group_toks_ex kk og srcs cx base gba selects groupbys ts :
-  ctx_ok v og cx -> ctx_ok v og base -> group_toks it kk og srcs cx base gba selects groupbys = Ok ts -> ex v ts.
+  k_ok v og kk -> ctx_ok v og cx -> ctx_ok v og base -> group_toks it kk og srcs cx base gba selects groupbys = Ok ts -> ex v ts.
 Proof.
-  intros Hc Hb H. unfold group_toks in H. destruct groupbys; [inversion H; apply ex_nil|]. inv_ok H.
-  apply ex_T, ex_tjoin. eapply rmapM_ok; [|eassumption]. intros x b Hx. eapply gitem_toks_ex; [| |exact Hx]; assumption.
+  intros Hkk Hc Hb H. unfold group_toks in H. destruct groupbys; [inversion H; apply ex_nil|]. inv_ok H.
+  apply ex_T, ex_tjoin. eapply rmapM_ok; [|eassumption]. intros x b Hx. eapply gitem_toks_ex; [| | |exact Hx]; assumption.
 Qed.
 Lemma oitem_toks_ex kk og srcs cx base selects yd ts :
-  ctx_ok v og cx -> ctx_ok v og base -> oitem_toks it kk og srcs cx base selects yd = Ok ts -> ex v ts.
+  k_ok v og kk -> ctx_ok v og cx -> ctx_ok v og base -> oitem_toks it kk og srcs cx base selects yd = Ok ts -> ex v ts.
 Proof.
-  intros Hc Hb H. unfold oitem_toks in H. inv_ok H.
+  intros Hkk Hc Hb H. unfold oitem_toks in H. inv_ok H.
   match goal with |- ex v (match ?d with Some _ => ?a ++ _ | None => _ end) => assert (X : ex v a) end.
   { destruct (alias_ref selects (fst yd)).
     - match goal with E : Ok _ = Ok _ |- _ => inversion E; subst; clear E end. apply alias_ref_tok_ex; assumption.
@@ -163,38 +175,38 @@ Proof.
   destruct (snd yd); auto with exdb.
 Qed.
 Lemma order_toks_ex kk og srcs cx base selects orderbys ts :
-  ctx_ok v og cx -> ctx_ok v og base -> order_toks it kk og srcs cx base selects orderbys = Ok ts -> ex v ts.
+  k_ok v og kk -> ctx_ok v og cx -> ctx_ok v og base -> order_toks it kk og srcs cx base selects orderbys = Ok ts -> ex v ts.
 Proof.
-  intros Hc Hb H. unfold order_toks in H. destruct orderbys; [inversion H; apply ex_nil|]. inv_ok H.
-  apply ex_T, ex_tjoin. eapply rmapM_ok; [|eassumption]. intros x b Hx. eapply oitem_toks_ex; [| |exact Hx]; assumption.
+  intros Hkk Hc Hb H. unfold order_toks in H. destruct orderbys; [inversion H; apply ex_nil|]. inv_ok H.
+  apply ex_T, ex_tjoin. eapply rmapM_ok; [|eassumption]. intros x b Hx. eapply oitem_toks_ex; [| | |exact Hx]; assumption.
 Qed.
 
-Lemma ex_qalias og c base body ali (w : bool) :
-  v_adm v c = true -> ctx_ok v og base -> ex v body ->
-  ex v (if w then falias (RQAlias c) og body ali (q base) (qalias_quote c) (askw base) else body).
+Lemma ex_qalias og c k base body ali (w : bool) :
+  k_ok v og k -> ctx_ok v og base -> ex v body ->
+  ex v (if w then falias (RQAlias c) og body ali (q base) (k_qaq k) (askw base) else body).
 Proof.
-  intros Hc (Hq & _ & _ & Hk & Hadm0) Hb. destruct w; [|exact Hb].
-  apply ex_falias; [intros a; cbn [exact_q snd]; rewrite Hq; reflexivity|exact Hk|exact Hadm0|left; exact Hc|exact Hb].
+  intros Hk0 (Hq & _ & _ & Hk & Hadm0) Hb. destruct w; [|exact Hb].
+  apply ex_falias; [intros a; cbn [exact_q snd]; rewrite Hq, (proj1 Hk0); reflexivity|exact Hk|exact Hadm0|exact Hb].
 Qed.
 
 Ltac clause_facts :=
   repeat match goal with
   | E : with_toks _ _ _ _ = Ok ?a |- _ =>
-      assert (ex v a) by (eapply with_toks_ex; [|exact E]; cbn [kc with_c mk_k]; eauto with exdb); clear E
+      assert (ex v a) by (eapply with_toks_ex; [| |exact E]; cbn [kc with_c mk_k]; eauto with exdb); clear E
   | E : where_toks _ _ _ _ _ _ _ = Ok ?a |- _ =>
-      assert (ex v a) by (eapply where_toks_ex; [|exact E]; eauto with exdb); clear E
+      assert (ex v a) by (eapply where_toks_ex; [| |exact E]; eauto with exdb); clear E
   | E : group_toks _ _ _ _ _ _ _ _ _ = Ok ?a |- _ =>
-      assert (ex v a) by (eapply group_toks_ex; [| |exact E]; eauto with exdb); clear E
+      assert (ex v a) by (eapply group_toks_ex; [| | |exact E]; eauto with exdb); clear E
   | E : order_toks _ _ _ _ _ _ _ _ = Ok ?a |- _ =>
-      assert (ex v a) by (eapply order_toks_ex; [| |exact E]; eauto with exdb); clear E
+      assert (ex v a) by (eapply order_toks_ex; [| | |exact E]; eauto with exdb); clear E
   | E : rmapM (from_toks _ _ _ _) _ = Ok ?a |- _ =>
-      assert (Forall (ex v) a) by (eapply rmapM_ok; [|exact E]; intros ? ? ?; eapply from_toks_ex; [|eassumption]; eauto with exdb);
+      assert (Forall (ex v) a) by (eapply rmapM_ok; [|exact E]; intros ? ? ?; eapply from_toks_ex; [| |eassumption]; eauto with exdb);
       clear E
   | E : rmapM (join_toks _ _ _ _ _ _ _ _) _ = Ok ?a |- _ =>
-      assert (Forall (ex v) a) by (eapply rmapM_ok; [|exact E]; intros ? ? ?; eapply join_toks_ex; [| |eassumption]; eauto with exdb);
+      assert (Forall (ex v) a) by (eapply rmapM_ok; [|exact E]; intros ? ? ?; eapply join_toks_ex; [| | | |eassumption]; eauto with exdb);
       clear E
   | E : rmapM (it _ _ _ _) _ = Ok ?a |- _ =>
-      assert (Forall (ex v) a) by (eapply rmapM_ok; [|exact E]; intros ? ? ?; eapply Hit; [|eassumption]; eauto with exdb);
+      assert (Forall (ex v) a) by (eapply rmapM_ok; [|exact E]; intros ? ? ?; eapply Hit; [| |eassumption]; eauto with exdb);
       clear E
   end.
 
@@ -203,25 +215,27 @@ Lemma ex_opt_list (ss : list (list dtok)) (pre : dtok) sep :
 Proof. intros Hp H. destruct ss; [apply ex_nil|]. constructor; [exact Hp|]. apply ex_tjoin. exact H. Qed.
 
 Lemma qsel_toks_ex kin og0 wal sub pv ali c0 withs distinct selects from joins wheres havings groupbys orderbys l o fu ts :
-  ctx_ok v og0 (kc kin) ->
+  k_ok v og0 kin -> ctx_ok v og0 (kc kin) ->
   qsel_toks rho it qt kin og0 wal sub pv ali c0 withs distinct selects from joins wheres havings groupbys orderbys l o fu = Ok ts ->
   ex v ts.
 Proof.
-  intros Hk H. unfold qsel_toks in H.
-  pose proof (defaults_ok v og0 (rho c0) kin (Hadm c0) Hk) as Hb.
+  intros Hk0 Hk H. unfold qsel_toks in H.
+  pose proof (defaults_ok v og0 (rho c0) kin Hk0 Hk) as Hb.
+  pose proof (k_ok_defaults v og0 (rho c0) kin Hk0) as Hkb.
   set (k := defaults (rho c0) kin) in *. set (og := origin_after (rho c0) kin og0) in *.
   cbv zeta in H. destruct selects as [|s0 sr]; [inversion H; apply ex_nil|].
   inv_ok H. clause_facts.
-  apply ex_qalias; [apply Hadm|exact Hb|]. apply ex_vparen.
+  apply (ex_qalias og (rho c0) k (kc k)); [exact Hkb|exact Hb|]. apply ex_vparen.
   repeat (apply ex_app || apply ex_T || apply ex_if || apply ex_tjoin || apply ex_nil || apply ex_page
           || (apply ex_opt_list; [split; exact I|]) || assumption).
 Qed.
 
 Lemma qins_toks_ex kin og0 wal sub pv ali c0 into columns rows sel replace ts :
-  ctx_ok v og0 (kc kin) -> qins_toks rho it qt kin og0 wal sub pv ali c0 into columns rows sel replace = Ok ts -> ex v ts.
+  k_ok v og0 kin -> ctx_ok v og0 (kc kin) -> qins_toks rho it qt kin og0 wal sub pv ali c0 into columns rows sel replace = Ok ts -> ex v ts.
 Proof.
-  intros Hk H. unfold qins_toks in H.
-  pose proof (defaults_ok v og0 (rho c0) kin (Hadm c0) Hk) as Hb.
+  intros Hk0 Hk H. unfold qins_toks in H.
+  pose proof (defaults_ok v og0 (rho c0) kin Hk0 Hk) as Hb.
+  pose proof (k_ok_defaults v og0 (rho c0) kin Hk0) as Hkb.
   set (k := defaults (rho c0) kin) in *. set (og := origin_after (rho c0) kin og0) in *.
   cbv zeta in H. inv_bind H.
   assert (Hbase : ctx_ok v og (set_wn (kc k) false)) by auto with exdb.
@@ -237,18 +251,19 @@ Proof.
   - destruct sel as [y|]; [|inversion H; apply ex_nil].
     destruct (Nat.eqb (nselects y) 0); [inversion H; apply ex_nil|]. inv_bind H.
     match goal with E : qt _ _ _ _ _ _ _ = Ok ?s |- _ =>
-      assert (ex v s) by (eapply Hqt; [|exact E]; cbn [kc with_c mk_k]; exact Hbase) end.
-    inversion H; subst; clear H. apply ex_qalias; [apply Hadm|exact Hbase|]. apply ex_vparen. auto 8 with exdb.
+      assert (ex v s) by (eapply Hqt; [| |exact E]; cbn [kc with_c mk_k]; [apply k_ok_with_c; exact Hkb|exact Hbase]) end.
+    inversion H; subst; clear H. apply (ex_qalias og (rho c0) k (set_wn (kc k) false)); [exact Hkb|exact Hbase|]. apply ex_vparen. auto 8 with exdb.
   - inv_ok H. apply ex_T, ex_app; [auto with exdb|]. apply ex_app; [exact Hcols|]. apply ex_T, ex_app; [|auto with exdb].
     apply ex_tjoin. eapply rmapM_ok; [|eassumption]. intros row b Hx. cbn beta in Hx. inv_ok Hx.
-    apply ex_tjoin. eapply rmapM_ok; [|eassumption]. intros ? ? ?. eapply Hit; [|eassumption]. auto with exdb.
+    apply ex_tjoin. eapply rmapM_ok; [|eassumption]. intros ? ? ?. eapply Hit; [| |eassumption]; auto with exdb.
 Qed.
 
 Lemma qupd_toks_ex kin og0 c0 tbl sets from joins wheres l ts :
-  ctx_ok v og0 (kc kin) -> qupd_toks rho it qt kin og0 c0 tbl sets from joins wheres l = Ok ts -> ex v ts.
+  k_ok v og0 kin -> ctx_ok v og0 (kc kin) -> qupd_toks rho it qt kin og0 c0 tbl sets from joins wheres l = Ok ts -> ex v ts.
 Proof.
-  intros Hk H. unfold qupd_toks in H.
-  pose proof (defaults_ok v og0 (rho c0) kin (Hadm c0) Hk) as Hb.
+  intros Hk0 Hk H. unfold qupd_toks in H.
+  pose proof (defaults_ok v og0 (rho c0) kin Hk0 Hk) as Hb.
+  pose proof (k_ok_defaults v og0 (rho c0) kin Hk0) as Hkb.
   set (k := defaults (rho c0) kin) in *. set (og := origin_after (rho c0) kin og0) in *.
   cbv zeta in H. destruct sets as [|s0 sr]; [inversion H; apply ex_nil|].
   inv_ok H. clause_facts.
@@ -260,10 +275,11 @@ Proof.
 Qed.
 
 Lemma qdel_toks_ex kin og0 sub pv c0 from wheres ts :
-  ctx_ok v og0 (kc kin) -> qdel_toks rho it qt kin og0 sub pv c0 from wheres = Ok ts -> ex v ts.
+  k_ok v og0 kin -> ctx_ok v og0 (kc kin) -> qdel_toks rho it qt kin og0 sub pv c0 from wheres = Ok ts -> ex v ts.
 Proof.
-  intros Hk H. unfold qdel_toks in H.
-  pose proof (defaults_ok v og0 (rho c0) kin (Hadm c0) Hk) as Hb.
+  intros Hk0 Hk H. unfold qdel_toks in H.
+  pose proof (defaults_ok v og0 (rho c0) kin Hk0 Hk) as Hb.
+  pose proof (k_ok_defaults v og0 (rho c0) kin Hk0) as Hkb.
   set (k := defaults (rho c0) kin) in *. set (og := origin_after (rho c0) kin og0) in *.
   cbv zeta in H. inv_ok H. clause_facts. apply ex_vparen. apply ex_app; [|assumption].
   destruct (cls_is_clickhouse (rho c0)); apply ex_V;
@@ -277,38 +293,39 @@ Proof.
   match goal with |- ex v (match ?d with Some _ => ?a ++ _ | None => _ end) => assert (X : ex v a) end.
   { destruct (term_alias (fst td)) as [a0|].
     - destruct (truthy_ostr (Some a0) && existsb (option_eqb String.eqb (Some a0)) sa).
-      + match goal with E : Ok _ = Ok _ |- _ => inversion E; subst; clear E end.
-        constructor; [split; [exact (proj1 Hc)|exact (proj2 (proj2 (proj2 (proj2 Hc))))]|constructor].
+      + match goal with E : Ok _ = Ok _ |- _ => inversion E; subst; clear E end. apply alias_ref_tok_ex. exact Hc.
       + tts. assumption.
     - tts. assumption. }
   destruct (snd td); auto with exdb.
 Qed.
 
 Lemma qset_toks_ex kin og0 wal sub pv ali base ops orderbys l o ts :
-  ctx_ok v og0 (kc kin) -> qset_toks rho qt kin og0 wal sub pv ali base ops orderbys l o = Ok ts -> ex v ts.
+  k_ok v og0 kin -> ctx_ok v og0 (kc kin) -> qset_toks rho qt kin og0 wal sub pv ali base ops orderbys l o = Ok ts -> ex v ts.
 Proof.
-  intros Hk H. unfold qset_toks in H. cbv zeta in H. inv_ok H.
-  match goal with E : qt _ _ _ _ _ _ base = Ok ?a |- _ => assert (ex v a) by (eapply Hqt; [|exact E]; exact Hk); clear E end.
+  intros Hk0 Hk H. unfold qset_toks in H.
+  pose proof (defaults_ok v og0 (base_cls_of rho base) kin Hk0 Hk) as Hb.
+  pose proof (k_ok_defaults v og0 (base_cls_of rho base) kin Hk0) as Hkb.
+  set (k := defaults (base_cls_of rho base) kin) in *. set (og := origin_after (base_cls_of rho base) kin og0) in *.
+  cbv zeta in H. inv_ok H.
+  match goal with E : qt _ _ _ _ _ _ base = Ok ?a |- _ => assert (ex v a) by (eapply Hqt; [| |exact E]; assumption); clear E end.
   match goal with E : rmapM _ ops = Ok ?a |- _ => assert (Forall (ex v) a) end.
   { eapply rmapM_ok; [|eassumption]. intros x b Hx. cbn beta in Hx. inv_bind Hx.
     destruct (Nat.eqb (nselects base) (nselects (snd x))); [|discriminate Hx]. inversion Hx; subst.
-    apply ex_T. eapply Hqt; [|eassumption]. exact Hk. }
+    match goal with E : qt _ _ _ _ _ _ _ = Ok ?a |- _ => assert (ex v a) by (eapply Hqt; [| |exact E]; assumption) end.
+    apply ex_T. destruct (snd x); try assumption. destruct (cls_wrap (base_cls_of rho base)); auto with exdb. }
   match goal with E : _ = Ok ?ob |- ex v (if _ then falias _ _ (vparen _ _ (_ ++ _ ++ ?ob ++ _)) _ _ _ _ else _) =>
     assert (ex v ob) end.
   { destruct orderbys as [|o0 or_].
     - match goal with E : Ok _ = Ok _ |- _ => inversion E; apply ex_nil end.
     - match goal with E : bind _ _ = Ok _ |- _ => inv_ok E end. apply ex_T, ex_tjoin.
       eapply rmapM_ok; [|eassumption]. intros x b Hx. eapply sitem_toks_ex; [|exact Hx]; assumption. }
-  assert (Hbody : forall b, ex v b -> ex v (if wal then falias RSAlias og0 b ali (q (kc kin)) (aq (kc kin)) (askw (kc kin)) else b)).
-  { intros b Hb. destruct wal; [|exact Hb]. destruct Hk as (Hq & _ & Ha & Hkw & Hadm0).
-    apply ex_falias; [intros ?; cbn [exact_q snd]; rewrite Ha, Hq; reflexivity|exact Hkw|exact Hadm0|exact I|exact Hb]. }
-  apply Hbody. apply ex_vparen. auto 8 with exdb.
+  apply (ex_qalias og (base_cls_of rho base) k (kc k)); [exact Hkb|exact Hb|]. apply ex_vparen. auto 8 with exdb.
 Qed.
 
 Lemma query_toks_ex kin og0 wal sub pv ali x ts :
-  ctx_ok v og0 (kc kin) -> query_toks rho it qt kin og0 wal sub pv ali x = Ok ts -> ex v ts.
+  k_ok v og0 kin -> ctx_ok v og0 (kc kin) -> query_toks rho it qt kin og0 wal sub pv ali x = Ok ts -> ex v ts.
 Proof.
-  intros Hk H. destruct x; cbn [query_toks] in H.
+  intros Hk0 Hk H. destruct x; cbn [query_toks] in H.
   - eapply qsel_toks_ex; eassumption.
   - eapply qins_toks_ex; eassumption.
   - eapply qupd_toks_ex; eassumption.
@@ -318,16 +335,17 @@ Qed.
 End Exact.
 
 Theorem toks_exact rho v n :
-  (forall c0, v_adm v (rho c0) = true) ->
-  (forall k og srcs c i ts, ctx_ok v og c -> itoks rho n k og srcs c i = Ok ts -> ex v ts) /\
-  (forall kin og0 wal sub pv ali x ts, ctx_ok v og0 (kc kin) -> qtoks rho n kin og0 wal sub pv ali x = Ok ts -> ex v ts).
+  (forall k og srcs c i ts, k_ok v og k -> ctx_ok v og c -> itoks rho n k og srcs c i = Ok ts -> ex v ts) /\
+  (forall kin og0 wal sub pv ali x ts, k_ok v og0 kin -> ctx_ok v og0 (kc kin) ->
+     qtoks rho n kin og0 wal sub pv ali x = Ok ts -> ex v ts).
 Proof.
-  intros Hadm. induction n as [|n [IHi IHq]].
+  induction n as [|n [IHi IHq]].
   - split; intros; discriminate.
   - split.
-    + intros k og srcs c i ts Hc H. cbn [itoks] in H. eapply item_toks_ex; [| |exact Hc|exact H]; cbn beta; assumption.
-    + intros kin og0 wal sub pv ali x ts Hc H. cbn [qtoks] in H.
-      eapply query_toks_ex; [exact Hadm| | |exact Hc|exact H]; cbn beta; assumption.
+    + intros k og srcs c i ts Hk0 Hc H. cbn [itoks] in H.
+      eapply item_toks_ex; [| |exact Hk0|exact Hc|exact H]; cbn beta; assumption.
+    + intros kin og0 wal sub pv ali x ts Hk0 Hc H. cbn [qtoks] in H.
+      eapply query_toks_ex; [| |exact Hk0|exact Hc|exact H]; cbn beta; assumption.
 Qed.
 
 (* ================= 2. the erased token list does not depend on the class labels ================= *)
@@ -604,10 +622,17 @@ Lemma qset_toks_agr kin kin' og0 og0' wal sub sub' pv ali base ops orderbys l o 
   agr erase (qset_toks rho qt kin og0 wal sub pv ali base ops orderbys l o)
             (qset_toks rho' qt' kin' og0' wal sub' pv ali base ops orderbys l o).
 Proof.
-  intros Hs Hp. unfold qset_toks. cbv zeta.
-  ab ltac:(apply Rqt; [exact Hs|discriminate]).
-  abl ltac:(apply agr_rmapM; intros sy; cbn beta; ab ltac:(apply Rqt; [exact Hs|discriminate]);
-            destruct (Nat.eqb (nselects base) (nselects (snd sy))); [fin_ok|apply agr_err_l]).
+  intros Hs Hp. unfold qset_toks.
+  pose proof (csim_defaults (base_cls_of rho base) (base_cls_of rho' base) kin kin' Hs) as Hd.
+  set (k := defaults (base_cls_of rho base) kin). set (k' := defaults (base_cls_of rho' base) kin'). fold k k' in Hd.
+  cbv zeta.
+  ab ltac:(apply Rqt; [exact Hd|discriminate]).
+  abl ltac:(apply agr_rmapM; intros sy; cbn beta; ab ltac:(apply Rqt; [exact Hd|discriminate]);
+            destruct (Nat.eqb (nselects base) (nselects (snd sy))); [|apply agr_err_l];
+            apply agr_ok; rewrite !erase_cons; f_equal;
+            destruct (snd sy); try assumption;
+            destruct (cls_wrap (base_cls_of rho base)), (cls_wrap (base_cls_of rho' base));
+            rewrite ?erase_cons, ?erase_app; cbn [erase1 fst snd V app]; rewrite ?app_nil_r; assumption).
   eapply (agr_bind erase).
   - destruct orderbys as [|o0 or_]; [apply agr_ok; reflexivity|].
     abl ltac:(apply agr_rmapM; intros y; apply sitem_toks_agr; auto with exdb). fin_ok.
@@ -656,8 +681,12 @@ Lemma defaults_gba c k : k_gba (defaults c k) = cls_gba c && k_gba k.
 Proof. unfold defaults. cbn [k_gba mk_k]. destruct (cls_gba c); reflexivity. Qed.
 Lemma defaults_quote_kept c k : q (kc (defaults c k)) = q (kc k) /\ dia (kc (defaults c k)) = dia (kc k).
 Proof. unfold defaults. destruct (k_abs k); split; reflexivity. Qed.
-(* below a function call the three keys are absent, and the INNER class's values come back *)
+Lemma defaults_qaq_kept c k : k_abs k = false -> k_qaq (defaults c k) = k_qaq k.
+Proof. intros H. unfold defaults. rewrite H. reflexivity. Qed.
+(* below a function call nothing is absent any more (1270518): a sub-query there sees the OUTER conventions *)
 Lemma defaults_below_function c k :
+  k_abs k = false ->
   let k' := defaults c (fk k) in
-  sq (kc k') = cls_sq c /\ aq (kc k') = cls_aq c /\ askw (kc k') = cls_askw c /\ q (kc k') = q (kc k) /\ k_gba k' = cls_gba c.
-Proof. cbn. destruct (cls_gba c); repeat split. Qed.
+  sq (kc k') = sq (kc k) /\ aq (kc k') = aq (kc k) /\ askw (kc k') = askw (kc k) /\ q (kc k') = q (kc k)
+  /\ k_qaq k' = k_qaq k /\ k_gba k' = cls_gba c && k_gba k.
+Proof. intros H. unfold defaults, fk, with_c. cbn [k_abs mk_k kc k_gba k_qaq]. rewrite H. destruct (cls_gba c); repeat split. Qed.
